@@ -2955,9 +2955,44 @@ def _st_For_gen(self, st):
     return _orig_st_For_with(self, st, it)
 
 
+def _const_leaves(t):
+    if isinstance(t, Ite):
+        a, b = _const_leaves(t.a), _const_leaves(t.b)
+        return None if a is None or b is None else a + b
+    if is_int(t):
+        return [t.v]
+    return None
+
+
 def _orig_st_For_with(self, st, it):
     elems = self.concrete_iter(it)
     fr = self.frames[-1]
+    if elems is None and isinstance(it, Op) and it.op == "range" and len(it.args) == 1:
+        # range(n) where n is one of a few known small numbers chosen by conditions (a match counter): iteration k runs iff n > k
+        lv = _const_leaves(it.args[0])
+        if lv is not None and 0 <= max(lv) <= 8:
+            ctl = LoopCtl()
+            fr.loop_stack.append(ctl)
+            self.event("loop_unrolled", (max(lv),), st)
+            ctl.base_set = flat_set(self.cur_guard_list(state=True))
+            for kk in range(max(lv)):
+                ctl.cont = []
+                self.guard.append(self.truth(compare("gt", it.args[0], Const(kk))))
+                try:
+                    if self.feasible():
+                        self.assign(st.target, Const(kk), st)
+                        self.exec_block(st.body)
+                finally:
+                    self.guard.pop()
+            ctl.cont = []
+            brk = list(ctl.brk)
+            fr.loop_stack.pop()
+            if st.orelse:
+                self.guard.append(and_(*[not_(b) for b in brk]))
+                if self.feasible():
+                    self.exec_block(st.orelse)
+                self.guard.pop()
+            return
     if elems is None and isinstance(it, Ref):
         # a short list whose elements are individually known but present only under conditions
         # ([x for x in (a, b, c) if x]): one guarded iteration per possible element
